@@ -6,9 +6,11 @@ import ast
 from typing import Dict, List, Optional, Set, Tuple
 
 from ..cfg import CFG, Edge, Node, build, callee_info, find_method
-from ..core import Ctx, construct_key, norm
+from ..core import Ctx, construct_key, norm, norm_locals
+from ..dataflow import resolve, alternatives
+from ..match import expand_keywords, table_lookups
 from ..load import AnalysisError, Resolver, Scope, dotted, own_nodes, parent
-from ..paths import find_path, must_pass, no_suspension, reach, render
+from ..paths import find_path, held_locks, must_pass, no_suspension, reach, render
 from ..sym import call_name, enum_paths, find_calls, subst, sym_env
 from ..model import carries_exception
 
@@ -117,6 +119,33 @@ class BatcherRoles:
                               'key/result vars': [self.kvar, self.rvar]}
 
 
+def _future_vars(r: 'BatcherRoles') -> Set[str]:
+    """Locals of __call__ that (may) hold a future registered in the retention cache."""
+    gc = r.gcall
+    out: Set[str] = set()
+    for n in gc.nodes:
+        if n.kind != 'store_name':
+            continue
+        v = n.meta.get('value')
+        st = n.meta.get('stmt')
+        if v is None:
+            continue
+        rv = resolve(gc, n, v)
+        txt_nodes = list(ast.walk(rv)) if rv is not None else []
+        reads_ret = any(self_attr(x) == r.ret for x in txt_nodes)
+        makes = any(isinstance(x, ast.Attribute) and x.attr == 'create_future' for x in txt_nodes)
+        stored = isinstance(st, ast.Assign) and any(isinstance(t, ast.Subscript) and self_attr(t.value) == r.ret for t in st.targets)
+        if reads_ret or stored:
+            out.add(n.meta['name'])
+        elif makes:
+            # a created future counts once it is stored in the cache under some name
+            nm = n.meta['name']
+            if any(x.kind == 'store_sub' and self_attr(x.ast.value) == r.ret and isinstance(x.meta.get('value'), ast.Name)
+                   and x.meta['value'].id == nm for x in gc.nodes):
+                out.add(nm)
+    return out
+
+
 def _in_body(g: CFG, head: Node) -> List[Node]:
     return [n for n in g.nodes if head.ast in n.loops]
 
@@ -182,21 +211,17 @@ def c04(ctx: Ctx) -> None:
     body = _in_body(g, r.batchcall)
     body_completes = [c for c in body if c in r.completes]
     for c in body_completes:
-        recv = c.ast.func.value
+        v = resolve(g, c, c.ast.func.value, keep=(r.batchfuts,))
         good = False
-        if isinstance(recv, ast.Name):
-            defs = [n for n in body if n.kind == 'store_name' and n.meta['name'] == recv.id]
-            for d in defs:
-                v = d.meta.get('value')
-                if isinstance(v, ast.Call) and isinstance(v.func, ast.Attribute) and v.func.attr in ('pop', 'get') \
-                        and isinstance(v.func.value, ast.Name) and v.func.value.id == r.batchfuts \
-                        and v.args and isinstance(v.args[0], ast.Name) and v.args[0].id == r.kvar:
-                    good = True
-                if isinstance(v, ast.Subscript) and isinstance(v.value, ast.Name) and v.value.id == r.batchfuts \
-                        and isinstance(v.slice, ast.Name) and v.slice.id == r.kvar:
-                    good = True
-            good = good and len(defs) == 1
-        arg_ok = c.ast.args and isinstance(c.ast.args[0], ast.Name) and c.ast.args[0].id == r.rvar
+        if isinstance(v, ast.Call) and isinstance(v.func, ast.Attribute) and v.func.attr in ('pop', 'get') \
+                and isinstance(v.func.value, ast.Name) and v.func.value.id == r.batchfuts \
+                and v.args and isinstance(v.args[0], ast.Name) and v.args[0].id == r.kvar:
+            good = True
+        if isinstance(v, ast.Subscript) and isinstance(v.value, ast.Name) and v.value.id == r.batchfuts \
+                and isinstance(v.slice, ast.Name) and v.slice.id == r.kvar:
+            good = True
+        pay = resolve(g, c, c.ast.args[0]) if c.ast.args else None
+        arg_ok = isinstance(pay, ast.Name) and pay.id == r.rvar
         ctx.check('C04-B1', f'{norm(c.ast)}', g.loc(c), good and bool(arg_ok),
                   f'receiver is {r.batchfuts}[<yielded key>] of this iteration, payload is the yielded result',
                   'a result is delivered to a future that is not the one registered under the yielded key '
@@ -206,7 +231,7 @@ def c04(ctx: Ctx) -> None:
         ctx.violation('C04-B1', 'no completion inside the result loop', where, construct=construct_key(r.process.qualname, 'no completion'))
     # B2
     isinst = [n for n in body if n.kind == 'branch' and isinstance(n.meta['test'], ast.Call)
-              and norm(n.meta['test']) == f'isinstance({r.rvar}, Exception)']
+              and norm(resolve(g, n, n.meta['test'])) == f'isinstance({r.rvar}, Exception)']
     if not isinst:
         ctx.violation('C04-B2', 'no isinstance(result, Exception) branch', where,
                       'yielded Exception instances are returned as values (or values raised)',
@@ -231,7 +256,7 @@ def c04(ctx: Ctx) -> None:
         hname = h.meta.get('name')
         for s, comps in sweeps:
             if any(part == 'handler' and t is parent(h.ast) for t, part in s.trys) or s.id in reach(g, [h]):
-                if any(c.ast.args and isinstance(c.ast.args[0], ast.Name) and c.ast.args[0].id == hname for c in comps):
+                if any(c.ast.args and norm(resolve(g, c, c.ast.args[0])) == hname for c in comps):
                     b3.append((h, s))
     exc_ok = lambda e: _not_ise(e) and not (e.label == 'exc' and e.classes is not None and
                                             set(e.classes) <= {'CancelledError', 'BaseException', 'GeneratorExit'})
@@ -279,14 +304,7 @@ def c04(ctx: Ctx) -> None:
     # B7
     gc = r.gcall
     rets = [n for n in gc.nodes if n.kind == 'return']
-    futvars = set()
-    for n in gc.nodes:
-        if n.kind == 'store_name':
-            v = n.meta.get('value')
-            if isinstance(v, ast.Subscript) and self_attr(v.value) == r.ret:
-                futvars.add(n.meta['name'])
-            if isinstance(v, ast.Call) and isinstance(v.func, ast.Attribute) and v.func.attr == 'create_future':
-                futvars.add(n.meta['name'])
+    futvars = _future_vars(r)
     for n in rets:
         v = n.ast.value
         inner = v.value if isinstance(v, ast.Await) else None
@@ -322,14 +340,31 @@ def _rule_dispatch(ctx: Ctx, r: BatcherRoles, rule: str) -> None:
               'it serves until it is cancelled', 'the dispatcher can return: every later call is enqueued and never answered',
               witness=render(gd, w), construct=construct_key(r.dispatch.qualname, 'dispatcher returns'))
     g = r.gproc
-    sem_with = [n for n in g.nodes if n.kind == 'with_enter' and n.meta.get('is_async') and r.sem is not None and self_attr(n.ast) == r.sem]
-    manual = [n for f in r.p.all_functions() for n in build(f, r.p).nodes if n.kind == 'call'
-              and isinstance(n.ast.func, ast.Attribute) and n.ast.func.attr in ('acquire', 'release')
-              and self_attr(n.ast.func.value) == r.sem]
-    ctx.check(rule, f'semaphore taken with async with ({len(sem_with)} site), manual acquire/release: {len(manual)}',
-              f'{FILE}:{r.process.lineno}', bool(sem_with) and not manual, 'released on every path',
-              'manual semaphore handling (a slot can leak on an exception path)' if manual else 'the batch call is not inside the semaphore',
-              construct=construct_key(r.process.qualname, 'semaphore usage'))
+    sp = f'self.{r.sem}' if r.sem else None
+    sem_with = [n for n in g.nodes if n.kind == 'with_enter' and n.meta.get('is_async') and sp and g.res.path(n.ast) == sp]
+    # every manual acquire must be followed by a release on every path (incl. exception and cancellation edges),
+    # and acquire/release must happen in the same coroutine
+    leaks = []
+    n_manual = 0
+    for f in r.p.all_functions():
+        gg = build(f, r.p)
+        acq = [n for n in gg.nodes if n.kind == 'await' and isinstance(n.ast.value, ast.Call) and isinstance(n.ast.value.func, ast.Attribute)
+               and n.ast.value.func.attr == 'acquire' and sp and gg.res.path(n.ast.value.func.value) == sp]
+        rel = [n for n in gg.nodes if n.kind == 'call' and isinstance(n.ast.func, ast.Attribute) and n.ast.func.attr == 'release'
+               and sp and gg.res.path(n.ast.func.value) == sp]
+        n_manual += len(acq) + len(rel)
+        if rel and not acq:
+            leaks.append((gg, rel[0], None, 'release() without an acquire in the same coroutine'))
+        for a in acq:
+            starts = [e for e in gg.succ[a.id] if e.label != 'exc']
+            w = must_pass(gg, [], [gg.exit, gg.raise_exit], rel, start_edges=starts)
+            if w is not None or not rel:
+                leaks.append((gg, a, w, 'a path from the acquire leaves without releasing the slot'))
+    gg0, n0, w0, why0 = leaks[0] if leaks else (g, None, None, '')
+    ctx.check(rule, f'semaphore slot is released on every path ({len(sem_with)} async-with site(s), {n_manual} manual acquire/release call(s))',
+              gg0.loc(n0) if n0 is not None else f'{FILE}:{r.process.lineno}', (bool(sem_with) or n_manual > 0) and not leaks,
+              'async with / acquire + try/finally release', why0 or 'the batch call is not inside the semaphore',
+              witness=render(gg0, w0), construct=construct_key(r.process.qualname, 'semaphore usage'))
 
 
 # ---------------------------------------------------------------------------
@@ -361,13 +396,7 @@ def c09(ctx: Ctx) -> None:
     ctx.rule('C09-R3', 'no completion that may raise lies inside the try whose handler fans the batch failure out, nor unprotected inside that handler', 1)
     ctx.rule('C09-R5', 'the dispatcher keeps serving (= C04-B8): spawns, never awaits, never returns', 3)
     # R1
-    shared = set()
-    for n in gc.nodes:
-        if n.kind == 'store_name':
-            v = n.meta.get('value')
-            if (isinstance(v, ast.Subscript) and self_attr(v.value) == r.ret) or (
-                    isinstance(v, ast.Call) and isinstance(v.func, ast.Attribute) and v.func.attr == 'create_future'):
-                shared.add(n.meta['name'])
+    shared = _future_vars(r)
     r1_ok = True
     sites = 0
     hit_edges = [e for x in gc.nodes if x.kind == 'load_sub' and self_attr(x.ast.value) == r.ret
@@ -384,7 +413,7 @@ def c09(ctx: Ctx) -> None:
             ctx.violation('C09-R1', f'await {norm(v)} (bare) by the {role}', gc.loc(n),
                           'cancelling or timing out this caller cancels the future it shares with every caller of the key '
                           '(and the batch later fails on it)', witness=[f'{gc.loc(n)} {norm(parent(n.ast))}'],
-                          construct=construct_key(r.call.qualname, parent(n.ast), role))
+                          construct=construct_key('BATCHER.__call__', norm_locals(parent(n.ast), r.call), role))
         elif isinstance(v, ast.Call) and call_name(gc, v) == 'asyncio.shield' and v.args and \
                 isinstance(v.args[0], ast.Name) and v.args[0].id in shared:
             sites += 1
@@ -403,7 +432,7 @@ def c09(ctx: Ctx) -> None:
         ctx.check('C09-R2', f'{norm(c.ast)}', g.loc(c), guarded or r1_ok,
                   'state-guarded' if guarded else 'no await can cancel the future (R1 holds)',
                   'set_result/set_exception on a future that a cancelled caller has cancelled raises InvalidStateError',
-                  construct=construct_key(r.process.qualname, c.ast, 'unguarded completion'))
+                  construct=construct_key('BATCHER.process_batch', norm_locals(c.ast, r.process), 'unguarded completion'))
     # R3
     fan_handlers = []
     for s, comps in _sweeps(r):
@@ -420,7 +449,7 @@ def c09(ctx: Ctx) -> None:
                   'one caller\'s completion error cannot be mistaken for a batch failure',
                   'the InvalidStateError of one cancelled caller is handed to every unanswered bystander; a second cancelled '
                   'future met inside the handler kills the batch task and the remaining callers hang',
-                  construct=construct_key(r.process.qualname, 'completion errors fan out'))
+                  construct=construct_key('BATCHER.process_batch', 'completion errors fan out'))
     if not fan_handlers:
         ctx.holds('C09-R3', 'no fan-out handler encloses completions', f'{FILE}:{r.process.lineno}')
     if r1_ok:
@@ -461,7 +490,7 @@ def c10(ctx: Ctx) -> None:
     guards = []
     for n in g.nodes:
         if n.kind == 'branch' and isinstance(n.meta['test'], ast.Compare) and len(n.meta['test'].ops) == 1:
-            t = n.meta['test']
+            t = resolve(g, n, n.meta['test'], keep=(L,))
             l, rr, op = t.left, t.comparators[0], t.ops[0]
             if is_len_L(l) and self_attr(rr) and isinstance(op, ast.Lt):
                 guards.append((n, 'true', self_attr(rr)))
@@ -469,6 +498,8 @@ def c10(ctx: Ctx) -> None:
                 guards.append((n, 'true', self_attr(l)))
             elif is_len_L(l) and self_attr(rr) and isinstance(op, ast.GtE):
                 guards.append((n, 'false', self_attr(rr)))
+            elif is_len_L(rr) and self_attr(l) and isinstance(op, ast.LtE):
+                guards.append((n, 'false', self_attr(l)))
             elif (is_len_L(l) or is_len_L(rr)) and (self_attr(l) or self_attr(rr)):
                 ctx.violation('C10-R1', f'size guard {norm(t)}', g.loc(n),
                               'the guard admits a growth when the list already holds max_batch_size items (off by one)',
@@ -493,7 +524,7 @@ def c10(ctx: Ctx) -> None:
                   'the batch can grow without (re-)checking the size limit', witness=render(g, w),
                   construct=construct_key(r.assemble.qualname, 'unguarded growth', gr.ast))
         if gr.kind == 'call' and gr.ast.func.attr == 'extend':
-            a = gr.ast.args[0] if gr.ast.args else None
+            a = resolve(g, gr, gr.ast.args[0], keep=(L,)) if gr.ast.args else None
             ok = False
             why = 'bulk growth is not an islice bounded by max_batch_size - len(list)'
             if isinstance(a, ast.Call) and call_name(g, a) == 'itertools.islice' and len(a.args) == 2:
@@ -564,7 +595,7 @@ def c10(ctx: Ctx) -> None:
                       'nothing limits the number of concurrent executions of the batch function',
                       construct=construct_key(r.init.qualname, 'no semaphore'))
     for gg, n in calls_func:
-        inside = r.sem is not None and any(self_attr(i.context_expr) == r.sem for i in n.withs)
+        inside = r.sem is not None and f'self.{r.sem}' in held_locks(gg, [f'self.{r.sem}'])[n.id]
         ctx.check('C10-R3', f'{norm(n.ast)} in {gg.scope.qualname}', gg.loc(n), inside,
                   f'inside async with self.{r.sem}', 'the batch function runs outside the semaphore: unlimited concurrent batches',
                   construct=construct_key(gg.scope.qualname, n.ast, 'outside semaphore'))
@@ -638,7 +669,7 @@ def c10(ctx: Ctx) -> None:
     if not bounded:
         ctx.violation('C10-R5', 'no bounded wait in the assembler', f'{FILE}:{r.assemble.lineno}',
                       'batch_timeout is never waited for', construct=construct_key(r.assemble.qualname, 'no bounded wait'))
-    first = birth.meta['value'].elts[0]
+    first = resolve(g, birth, birth.meta['value'].elts[0])
     ok = isinstance(first, ast.Await) and isinstance(first.value, ast.Call) and isinstance(first.value.func, ast.Attribute) \
         and first.value.func.attr == 'get' and g.res.path(first.value.func.value) == f'self.{r.workq}'
     ctx.check('C10-R5', f'first item: {norm(first)}', g.loc(birth), ok, 'unbounded wait for the first item',
@@ -875,7 +906,10 @@ def c15(ctx: Ctx) -> None:
                 ctx.undecided('C15-R1', f'{d.name}: {norm(v)[:80]}', g.loc(rn), 'option form does not return functools.partial')
                 continue
             target_ok = v.args and isinstance(v.args[0], ast.Name) and v.args[0].id == d.name and len(v.args) == 1
-            bound = {k.arg: k.value for k in v.keywords}
+            bound = expand_keywords(g, rn, v)
+            if bound is None:
+                ctx.undecided('C15-R1', f'{d.name}: {norm(v)[:80]}', g.loc(rn), '**mapping in the partial cannot be expanded')
+                continue
             missing = sorted(set(kwonly) - set(bound))
             extra = sorted(set(bound) - set(kwonly))
             wrong = sorted(k for k, val in bound.items() if k in kwonly and not (isinstance(val, ast.Name) and val.id == k))
@@ -940,10 +974,21 @@ def _chains(ctx: Ctx, p) -> None:
     abb = p.func(FILE, 'async_background_batcher')
     wrapper = next((c for c in abb.children if c.kind == 'function' and c.is_async), None)
     ctor = None
-    if wrapper is not None:
-        for x in own_nodes(wrapper.node):
-            if isinstance(x, ast.Call) and isinstance(x.func, ast.Name) and x.func.id == r.cls.name:
-                ctor = x
+    ctor_kw = None
+
+    def _desc(sc):
+        out = [sc]
+        for c_ in sc.children:
+            out += _desc(c_)
+        return out
+    for sc in _desc(abb):
+        if sc.kind != 'function':
+            continue
+        gsc = build(sc, p)
+        for n in gsc.nodes:
+            if n.kind == 'call' and isinstance(n.ast.func, ast.Name) and n.ast.func.id == r.cls.name and not n.meta.get('inlined'):
+                ctor = n.ast
+                ctor_kw = expand_keywords(gsc, n, n.ast)
     uses = {
         'max_batch_size': lambda: any(n.kind == 'branch' and any(self_attr(y) == 'max_batch_size' for y in ast.walk(n.meta['test'])) for n in r.gasm.nodes),
         'max_concurrent_batches': lambda: r.sem is not None and isinstance(r.attr_ctor.get(r.sem), ast.Call) and any(
@@ -954,7 +999,7 @@ def _chains(ctx: Ctx, p) -> None:
                                          and n.ast.args and self_attr(n.ast.args[0]) == 'retention_timeout' for n in r.gcall.nodes),
     }
     for opt, used in uses.items():
-        passed = ctor is not None and any(k.arg == opt and isinstance(k.value, ast.Name) and k.value.id == opt for k in ctor.keywords)
+        passed = ctor is not None and ctor_kw is not None and isinstance(ctor_kw.get(opt), ast.Name) and ctor_kw[opt].id == opt
         rebound = wrapper is not None and (opt in wrapper.locals or any(
             isinstance(x, ast.Name) and x.id == opt and isinstance(x.ctx, ast.Store) for x in own_nodes(abb.node)))
         stored = opt == 'max_concurrent_batches' or (isinstance(r.attr_ctor.get(opt), ast.Name) and r.attr_ctor[opt].id == opt)
@@ -977,14 +1022,14 @@ def _registry(ctx: Ctx, p) -> None:
             for t in ((n.targets if isinstance(n, ast.Assign) else [n.target])) if isinstance(t, ast.Name)]
     regs += [t.id for n in own_nodes(abb.node) if isinstance(n, (ast.Assign, ast.AnnAssign)) and isinstance(n.value, ast.Dict)
              for t in ((n.targets if isinstance(n, ast.Assign) else [n.target])) if isinstance(t, ast.Name)]
-    lookups = [n for n in g.nodes if n.kind == 'load_sub' and isinstance(n.ast.value, ast.Name) and n.ast.value.id in regs]
+    lookups, miss, hit_, lkeys = table_lookups(g, lambda e: isinstance(e, ast.Name) and e.id in regs)
     stores = [n for n in g.nodes if n.kind == 'store_sub' and isinstance(n.ast.value, ast.Name) and n.ast.value.id in regs]
     if not lookups or not stores:
         ctx.violation('C15-R3', 'no per-loop registry lookup/store in the decorated wrapper', f'{FILE}:{wrapper.lineno}',
                       'one batcher is shared by all loops (its queue and futures belong to the first loop)',
                       construct=construct_key(wrapper.qualname, 'no registry'))
         return
-    reg = lookups[0].ast.value.id
+    reg = stores[0].ast.value.id
     kind = None
     for n in own_nodes(abb.node):
         if isinstance(n, (ast.Assign, ast.AnnAssign)) and n.value is not None:
@@ -995,14 +1040,13 @@ def _registry(ctx: Ctx, p) -> None:
               'weakly keyed by the loop: a closed loop\'s batcher is dropped, a new loop never inherits it',
               'a strong (or value-weak) registry keeps batchers of dead loops / drops live ones',
               construct=construct_key(abb.qualname, 'registry kind', kind))
-    keyn = {norm(n.ast.slice) for n in lookups + stores}
-    keydefs = [n for n in g.nodes if n.kind == 'store_name' and n.meta['name'] in keyn]
-    ok = len(keyn) == 1 and len(keydefs) == 1 and isinstance(keydefs[0].meta.get('value'), ast.Call) and \
-        g.res.path(keydefs[0].meta['value'].func) == 'asyncio.get_running_loop'
+    rkeys = [resolve(g, lk_node, k) for lk_node, k in zip(lookups, lkeys)] + [resolve(g, n, n.ast.slice) for n in stores]
+    keyn = {norm(k) for k in rkeys}
+    ok = len(keyn) == 1 and all(isinstance(k, ast.Call) and g.res.path(k.func) == 'asyncio.get_running_loop' and not k.args
+                                for k in rkeys)
     ctx.check('C15-R3', f'registry key {sorted(keyn)} = get_running_loop() of this activation', g.loc(lookups[0]), ok,
               'each loop gets its own batcher', 'the registry key is not the running loop',
               construct=construct_key(wrapper.qualname, 'registry key'))
-    miss = [e for n in lookups for e in g.succ[n.id] if e.label == 'exc']
     for s in stores:
         w = None
         for x in [x for x in g.nodes if x.suspends]:
@@ -1023,7 +1067,10 @@ def _registry(ctx: Ctx, p) -> None:
               construct=construct_key(wrapper.qualname, 'registry mutated', [norm(n.ast) for n in muts]))
     # use: the awaited call is on the looked-up / stored batcher
     uses = [n for n in g.nodes if n.kind == 'await']
-    bvars = {n.meta['name'] for n in g.nodes if n.kind == 'store_name' and (
+    bvars = {n.meta['name'] for n in g.nodes if n.kind == 'store_name' and n.meta.get('value') is not None and any(
+        isinstance(x, ast.Name) and x.id == reg for x in ast.walk(resolve(g, n, n.meta['value'])))} | \
+            {s_.meta['value'].id for s_ in stores if isinstance(s_.meta.get('value'), ast.Name)} | \
+            {n.meta['name'] for n in g.nodes if n.kind == 'store_name' and (
         (isinstance(n.meta.get('value'), ast.Subscript) and isinstance(n.meta['value'].value, ast.Name) and n.meta['value'].value.id == reg)
         or (isinstance(n.meta.get('stmt'), ast.Assign) and any(isinstance(t, ast.Subscript) and isinstance(t.value, ast.Name)
                                                                and t.value.id == reg for t in n.meta['stmt'].targets)))}
